@@ -250,6 +250,16 @@ def run(ctx):
     shared_pats = ['^never$', '^never$']      # ONE list object handed in again and again, edited in place between registrations
     for it_ in range(ctx.budget(500, 5000)):
         root = tied_frozen() if it_ < 3 else gen_tree(rng, C)
+        if it_ >= 3 and rng.random() < 0.04:
+            # the model handed over is itself a leaf (logistic regression: KFACPreconditioner(torch.nn.Linear(784, 10)))
+            root = rng.choice([lambda: torch.nn.Linear(3, 2), lambda: torch.nn.Conv2d(1, 2, 1), lambda: C['MyLinear'](2, 2), lambda: torch.nn.ReLU()])()
+            ctx.count('root-is-a-leaf')
+        if it_ >= 3 and rng.random() < 0.2:
+            # eligibility is a property of the tree and the patterns, not of the train/eval flag at registration time
+            # (a validation pass before building the preconditioner, a backbone kept in eval mode)
+            mods_ = list(root.modules())
+            rng.choice(mods_).eval()
+            ctx.count('eval-mode-at-registration')
         pats = [] if it_ < 3 else gen_patterns(rng)
         if it_ >= 3 and rng.random() < 0.25:
             # the caller keeps one skip list and edits it in place (same object, same length, new patterns)
